@@ -179,6 +179,21 @@ CLAIMED['C09'] = ('other',
     'constant propagation through dispatch functions + abstract interpretation of wrappers on constituent languages + shape rules',
     'DESIGN.md section C09')
 
+CLAIMED['C05'] = ('other',
+    'Decided part, for the 90 modules with a public generator and the 8 generic algorithms: (1) call-graph rule: validate() reaches the '
+    'generator through resolved calls, so there is one formula, not two (iban / eu.at_02: both sides go through mod_97_10 over the '
+    'same rearrangement); (2) every use of a generator on the validation path is a compare-and-raise (`gen(payload) != number[k]` -> '
+    'InvalidChecksum, `not in` for the documented alternatives) whose payload slice is disjoint from the compared position (interval '
+    'reasoning on slice bounds) or whose generator slices the position away itself; (3) must-pass-through: every path of validate() '
+    'to a return is dominated by a checksum gate, with a frozen list of documented exceptions; (4) for the generic algorithms the '
+    'GEN clause of the ALG engine (generated character is the unique accepted one for every state, placeholder is the zero symbol '
+    'of every alphabet). From (1)-(3) the character present in a valid number is the generated one and any other is rejected, for '
+    'every valid number at once.',
+    'Trusted: callee resolution; CPython ast. Not decided: the arithmetic where validate() uses checksum(number) == constant beside a '
+    'separately written generator; MEID; payload/position pairs measured from different ends (lu.tva).',
+    'call-graph + dominance (must-pass-through) + slice-interval rules, ALG tabulation for the generic modules',
+    'DESIGN.md section C05')
+
 NOT_APPLICABLE = {
 }
 
